@@ -334,9 +334,12 @@ func parseText(text string) (*Message, error) {
 	return ParseMessage(bufio.NewReader(strings.NewReader(text)))
 }
 
-// spell returns one spelling of a known header name: 0 canonical, 1 compact (if any), 2 upper, 3 lower.
+// spell returns one spelling of a known header name: 0 canonical, 1 compact (if any), 2 upper, 3 lower,
+// 4 compact in upper case.
 func spell(name string, k int) string {
 	switch k {
+	case 4:
+		return strings.ToUpper(spell(name, 1))
 	case 1:
 		switch name {
 		case "Via":
